@@ -305,6 +305,33 @@ Proof.
   pose proof (move_mints_nothing c s d v H1). simpl in *. lia.
 Qed.
 
+(* ---- allegation penalty / bounty (EndBlock, guilty verdict) ---- *)
+Lemma penalty_amount_nonneg total pct dec : 0 <= total -> 0 <= pct -> 0 < dec -> 0 <= penalty_amount total pct dec.
+Proof. intros. unfold penalty_amount. apply Z.div_pos; nia. Qed.
+
+Lemma penalty_core_facts stake val bounty p bpct bdec : 0 <= p -> 0 <= bpct <= bdec -> 0 < bdec ->
+  no_creation (penalty_core stake val bounty p bpct bdec) /\ credits_ok (penalty_core stake val bounty p bpct bdec) /\
+  takes_only_from (penalty_core stake val bounty p bpct bdec) [stake].
+Proof.
+  intros P B D. pose proof E18_pos. assert (X : 0 <= p * E18) by nia.
+  assert (Y : 0 <= p * E18 * bpct / bdec) by (apply Z.div_pos; nia).
+  assert (W : p * E18 * bpct / bdec <= p * E18).
+  { apply Z.div_le_upper_bound; [lia|]. nia. }
+  unfold penalty_core. generalize dependent (p * E18 * bpct / bdec). intros y Y W.
+  generalize dependent (p * E18). intros x X W.
+  split; [tw_crush|split; [cred_crush|deb_crush]].
+Qed.
+
+Lemma penalty_ops_facts (l : gmap key Z) (stake val bounty : N) (pct dec bpct bdec : Z) :
+  0 <= val_total l val -> 0 <= pct -> 0 < dec -> 0 <= bpct <= bdec -> 0 < bdec ->
+  no_creation (penalty_ops l stake val bounty pct dec bpct bdec) /\ credits_ok (penalty_ops l stake val bounty pct dec bpct bdec) /\
+  takes_only_from (penalty_ops l stake val bounty pct dec bpct bdec) [stake].
+Proof.
+  intros T P D B BD. unfold penalty_ops. destruct (_ <? 0).
+  - split; [intros c; simpl; lia|split; [reflexivity|intros a []]].
+  - apply penalty_core_facts; auto. apply penalty_amount_nonneg; auto.
+Qed.
+
 (* ---------------- the per-kind statements in the shape of props/C02.v and props/C03.v ---------------- *)
 Lemma send_no_creation : forall known cur from to v payer fp fee ops, 0 <= fee -> effect_send known cur from to v = Some ops ->
   no_creation (ops ++ fee_ops payer fp fee) /\ credits_ok (ops ++ fee_ops payer fp fee).
